@@ -276,17 +276,24 @@ func (commit *Commit) FirstPrecommit() *Vote {
 }
 
 func (commit *Commit) Height() int64 {
-	if len(commit.Precommits) == 0 {
+	if commit == nil || len(commit.Precommits) == 0 {
 		return 0
 	}
-	return commit.FirstPrecommit().Height
+	// FirstPrecommit is nil when every precommit is nil
+	if first := commit.FirstPrecommit(); first != nil {
+		return first.Height
+	}
+	return 0
 }
 
 func (commit *Commit) Round() int64 {
-	if len(commit.Precommits) == 0 {
+	if commit == nil || len(commit.Precommits) == 0 {
 		return 0
 	}
-	return commit.FirstPrecommit().Round
+	if first := commit.FirstPrecommit(); first != nil {
+		return first.Round
+	}
+	return 0
 }
 
 func (commit *Commit) Type() byte {
